@@ -177,6 +177,10 @@ Proof.
       rewrite !digit_cadd by assumption; digit_cases; cbn -[N.add]; reflexivity.
 Qed.
 
+(* from here on write_color is only used through the lemma above (a failing `rewrite` must not
+   start to unfold the 900-line definition) *)
+Local Opaque g_tcr_ansi_write_color.
+
 Lemma g_tcr_write_str_eq w s : g_tcr_ansi_write_str w s = (w ++ s, inl tt).
 Proof. reflexivity. Qed.
 
@@ -216,7 +220,7 @@ Qed.
 (* the hidden variant panics *)
 Lemma g_tcr_render_nonexhaustive_panics :
   g_tcr_render (fst (g_tcr_set_fg g_tcr_spec_new (Some TcNonexhaustive))) = None.
-Proof. reflexivity. Qed.
+Proof. vm_compute. reflexivity. Qed.
 
 (* ======================================================================== *)
 (* 2. the interpretation                                                     *)
